@@ -202,21 +202,21 @@ def mergeF : Nat → List Nat → List Nat → List Nat
     | true => x :: mergeF f xs (y :: ys)
     | false => y :: mergeF f (x :: xs) ys
 
-/-- elements at even / odd positions -/
-def halve : List Nat → List Nat × List Nat
-  | [] => ([], [])
-  | [a] => ([a], [])
-  | a :: b :: rest => let p := halve rest; (a :: p.1, b :: p.2)
+/-- one pass of bottom-up merge sort: adjacent runs merged -/
+def mergePairs : List (List Nat) → List (List Nat)
+  | [] => []
+  | [l] => [l]
+  | a :: b :: rest => mergeF (a.length + b.length) a b :: mergePairs rest
 
-def msortF : Nat → List Nat → List Nat
-  | 0, l => l
-  | f + 1, l =>
-    match l with
-    | [] => []
-    | [a] => [a]
-    | a :: b :: rest =>
-      let p := halve (a :: b :: rest)
-      mergeF (rest.length + 2) (msortF f p.1) (msortF f p.2)
+/-- passes until one run is left (`fuel` ≥ log₂ of the number of runs) -/
+def mergeAll : Nat → List (List Nat) → List Nat
+  | _, [] => []
+  | _, [l] => l
+  | 0, l :: _ => l
+  | f + 1, ls => mergeAll f (mergePairs ls)
+
+/-- merge sort, bottom-up (no pairs, no `let`: cheap for the kernel); the fuel argument is an upper bound of the length -/
+def msortF (fuel : Nat) (l : List Nat) : List Nat := mergeAll fuel (l.map fun a => [a])
 
 def strictInc : List Nat → Bool
   | [] => true
@@ -233,6 +233,49 @@ the invalid value is not listed and maps to itself -/
 def StrTable.ok (t : StrTable) : Bool :=
   t.rows.all (fun r => r.back == r.value) && nodupNat (t.rows.map (·.value)) && nodupNat (t.rows.map (·.str)) &&
   !(t.rows.map (·.value)).contains t.invalid && t.invalidBack == t.invalid
+
+/-! ### identifiers of the untyped constants -/
+
+/-! These run inside the kernel over ~3000 identifiers, so they are written as arithmetic on the packed number
+(base-256 digits, least significant first) with Boolean tests, not over lists. -/
+
+/-- 0 = drop the byte; upper case → lower case; letters and digits kept -/
+def normStep (b : Nat) : Nat :=
+  cond (Nat.ble 65 b && Nat.ble b 90) (b + 32)
+    (cond ((Nat.ble 97 b && Nat.ble b 122) || (Nat.ble 48 b && Nat.ble b 57)) b 0)
+
+/-- `acc` holds the digits produced so far, `mul` = 256^(their number); the leading 1 of the packing is re-attached at the end -/
+def normAux : Nat → Nat → Nat → Nat → Nat
+  | 0, _, acc, mul => acc + mul
+  | f + 1, n, acc, mul =>
+    match Nat.ble n 1 with
+    | true => acc + mul
+    | false =>
+      match normStep (n % 256) with
+      | 0 => normAux f (n / 256) acc mul
+      | c + 1 => normAux f (n / 256) (acc + (c + 1) * mul) (mul * 256)
+
+/-- letters and digits only, lower case: `RecordHeartRate`, `record_heart_rate` ↦ `recordheartrate` -/
+def normIdent (n : Nat) : Nat := normAux n n 0 1
+
+/-- 256^(number of bytes of the packed text) -/
+def weightAux : Nat → Nat → Nat → Nat
+  | 0, _, w => w
+  | f + 1, n, w => match Nat.ble n 1 with
+    | true => w
+    | false => weightAux f (n / 256) (w * 256)
+
+/-- identifier of a field constant: message name followed by field name (concatenation of the packed texts) -/
+def joinIdent (a b : Nat) : Nat :=
+  let w := weightAux b b 1
+  a * w + (b - w)
+
+/-- one number per (normalised identifier, value < 2^16) pair, for sorting -/
+def encPair (p : Nat × Nat) : Nat := normIdent p.1 * 65536 + p.2
+
+/-- a list of (identifier, value) pairs as a sorted list of numbers: equal iff the two lists are equal as multisets up
+to the case / punctuation of the identifiers -/
+def sortedPairs (l : List (Nat × Nat)) : List Nat := msortF l.length (l.map encPair)
 
 /-! ### the generator's output against the tree -/
 
